@@ -100,28 +100,52 @@ def misfitIsXsi : XmlSpec.Misfit → Bool
 /-- tokens of the document that interrupt character data inside a leaf element -/
 def docHasCdata (toks : List XmlSpec.Tok) : Bool := toks.any fun | .cdata s => !s.isEmpty | _ => false
 
-def docHasSplit : List XmlSpec.Tok → Bool
-  | .chars _ :: .comment :: _ => true
-  | .chars _ :: .pi :: _ => true
-  | .comment :: .chars _ :: _ => true
-  | .pi :: .chars _ :: _ => true
-  | _ :: r => docHasSplit r
-  | [] => false
+/-- classification helper (NOT part of the spec): the reading that drops CDATA sections and everything after the
+first character run of an element — the shape of the two known defects. If the document fits / means the same
+under this reading, the failure is attributed to them. -/
+def interruptedReading : List XmlSpec.Tok → Bool → List XmlSpec.Tok
+  | [], _ => []
+  | .cdata _ :: r, seen => interruptedReading r seen
+  | .chars s :: r, seen => if seen then interruptedReading r true else .chars s :: interruptedReading r true
+  | .comment :: r, seen => interruptedReading r seen
+  | .pi :: r, seen => interruptedReading r seen
+  | t :: r, _ => t :: interruptedReading r false
 
-def crToLf (b : Bytes) : Bytes := b.map fun c => if c = 13 then 10 else c
+instance : BEq (Except String Bytes) where
+  beq a b := match a, b with
+    | .ok x, .ok y => x == y
+    | .error x, .error y => x == y
+    | _, _ => false
+
+/-- the output with every literal CR written as `&#13;` (what a writer has to do to keep a CR, XML 1.0 §2.11) -/
+def escapeCr (b : Bytes) : Bytes := b.flatMap fun c => if c = 13 then [38, 35, 49, 51, 59] else [c]
 
 /-- canonical value renderings carry strings as hex: replace `0d` pairs by `0a` at even positions of hex runs is not
 needed — compare after mapping CR to LF inside the *documents* instead -/
 def specJudge (XS : XmlSpec.SpecExt) (t : Ty) (doc : Bytes) (status payload : String) : Option (String × String) :=
   let (dr, _) := roots t
-  let value (d : Bytes) : Except String Bytes :=
-    match XmlSpec.parse d with
+  let valueOfNode (n : XmlSpec.L XmlSpec.Node) : Except String Bytes :=
+    match n with
     | .error (.illFormed why) => .error ("ill:" ++ why)
     | .error (.unsupported why) => .error ("unsupported:" ++ why)
     | .ok node =>
       match XmlSpec.specValue XS XmlSpec.judgeDef smithyDepth dr t node with
       | .ok v => .ok v
       | .error m => .error ("misfit:" ++ isErrMisfit m ++ (if misfitIsXsi m then ":xsi" else ""))
+  let value (d : Bytes) : Except String Bytes := valueOfNode (XmlSpec.parse d)
+  -- classification only: the values with CR and LF identified
+  let valueCrLf (d : Bytes) : Except String Bytes :=
+    match XmlSpec.parse d with
+    | .ok node =>
+      match XmlSpec.specValue { XS with strNorm := fun s => XmlSpec.normEol s } XmlSpec.judgeDef smithyDepth dr t node with
+      | .ok v => .ok v
+      | .error _ => .error "misfit"
+    | .error _ => .error "ill"
+  let toks := match XmlSpec.lex doc with | .ok t => t | .error _ => []
+  -- classification only: value under the reading that exhibits the CDATA / comment defects
+  let valueInterrupted : Except String Bytes :=
+    valueOfNode (XmlSpec.buildAux (XmlSpec.meaning (interruptedReading toks false)) [] none)
+  let interruptClass := if docHasCdata toks then "xml-cdata-dropped" else "xml-comment-splits-text"
   let docV := value doc
   if status = "err" then
     -- rejection is never a violation of the stated property, except the SDK form of ACL documents
@@ -140,6 +164,8 @@ def specJudge (XS : XmlSpec.SpecExt) (t : Ty) (doc : Bytes) (status payload : St
         if why = "ill:text outside the root element" then some ("xml-text-outside-root", "accepted: " ++ why)
         else some ("xml-illformed-accepted", "accepted: " ++ why)
       else if why.endsWith ":xsi" then some ("xml-xsi-type", "accepted: " ++ why)
+      else if valueInterrupted.toBool && valueInterrupted != docV then
+        some (interruptClass, "accepted although the document does not fit the type (" ++ why ++ "); it fits once the interrupted text is dropped")
       else if why.startsWith "misfit:scalar-int" || why.startsWith "misfit:scalar-long" then some ("xml-int-lenient", "accepted: " ++ why)
       else some ("xml-strict-" ++ (why.drop 7).toString, "accepted a document that does not fit the type: " ++ why)
     | .ok v =>
@@ -155,20 +181,13 @@ def specJudge (XS : XmlSpec.SpecExt) (t : Ty) (doc : Bytes) (status payload : St
           if v = v' then none
           else
             -- classify by the shape of the input
-            let toks := match XmlSpec.lex doc with | .ok t => t | .error _ => []
             let cls :=
-              if value (crToLf doc) == value (crToLf b) && b.contains 13 then "xml-cr-not-escaped"
-              else if docHasCdata toks then "xml-cdata-dropped"
-              else if docHasSplit toks then "xml-comment-splits-text"
+              if b.contains 13 && valueCrLf doc == valueCrLf b then "xml-cr-not-escaped"
+              else if valueInterrupted == .ok v' then interruptClass
+              else if b.contains 13 && (docHasCdata toks || valueInterrupted != docV) then interruptClass
               else "xml-meaning-changed"
             some (cls, "meaning of the accepted document ≠ meaning of the re-encoded document")
   else none
-
-instance : BEq (Except String Bytes) where
-  beq a b := match a, b with
-    | .ok x, .ok y => x == y
-    | .error x, .error y => x == y
-    | _, _ => false
 
 def judge (fs : List String) : String :=
   match fs with
@@ -177,10 +196,10 @@ def judge (fs : List String) : String :=
     | some t, some doc, some o =>
       let implOut := status ++ "/" ++ payload
       let unsupported := match XmlSpec.parse doc with | .error (.unsupported _) => true | _ => false
+      let modelOut := modelRun (mkExt o) t doc
       match specJudge (mkSpecExt o) t doc status payload with
-      | some (cls, detail) => specfail id cls detail
+      | some (cls, detail) => specfail id cls (detail ++ (if modelOut ≠ implOut then " [model differs too]" else ""))
       | none =>
-        let modelOut := modelRun (mkExt o) t doc
         if modelOut ≠ implOut then disagree id (modelOut.take 200).toString (implOut.take 200).toString
         else if unsupported && status = "ok" then unmodelled id "spec-doctype-subset"
         else if status = "ok" then
